@@ -121,7 +121,12 @@ impl Selector {
                     }
                     _ => false,
                 },
-                SelectorComponent::Star => Self::do_matches(&comps[1..], node),
+                // The universal selector matches any element, but not the
+                // document node above the root element.
+                SelectorComponent::Star => match &node.data {
+                    Element { .. } => Self::do_matches(&comps[1..], node),
+                    _ => false,
+                },
                 SelectorComponent::CombChild => {
                     if let Some(parent) = node.get_parent() {
                         Self::do_matches(&comps[1..], &parent)
